@@ -53,14 +53,31 @@ class Shadow:
         self.saved = []
         self.worst = 0.0
         self.ctx = ""
+        self.events = []          # cache event stream for TraceCache.tla
+        self.ids = {}
+        self.last_alpha = None
 
-    def _count(self, name, fn, before):
+    def _id(self, kind, obj_bytes):
+        import hashlib
+        d = (kind, hashlib.sha1(obj_bytes).hexdigest())
+        if d not in self.ids:
+            self.ids[d] = len(self.ids) + 1
+        return self.ids[d]
+
+    def _count(self, name, fn, before, spec_fn=None, args=None, alpha=None):
         self.calls[name] = self.calls.get(name, 0) + 1
+        hit = False
         try:
-            if fn.cache_info().hits > before:
+            hit = fn.cache_info().hits > before
+            if hit:
                 self.hits[name] = self.hits.get(name, 0) + 1
         except Exception:
             pass
+        if spec_fn is not None and len(self.events) < 60000:
+            if alpha is not None and alpha != self.last_alpha:
+                self.events.append({"ev": "alpha", "alpha": self._id("alpha", repr(float(alpha)).encode())})
+                self.last_alpha = alpha
+            self.events.append({"ev": "call", "fn": spec_fn, "args": args, "hit": bool(hit)})
 
     def _viol(self, name, msg, rep):
         self.ck.violation("C14|%s" % name, "%s [%s]" % (msg, self.ctx), rep)
@@ -89,7 +106,7 @@ class Shadow:
             def f(child_log_R_values, *a, **k):
                 before = orig.cache_info().hits
                 v = orig(child_log_R_values, *a, **k)
-                sh._count("compute_log_S", orig, before)
+                sh._count("compute_log_S", orig, before, "logS", [sh._id("arr", np.ascontiguousarray(x).tobytes()) for x in child_log_R_values])
                 v2 = raw(np.array([np.array(x, copy=True) for x in child_log_R_values], order="C"), *a, **k) if len(child_log_R_values) else 0.0
                 sh._cmp_arr("compute_log_S", v, v2, {"n_children": len(child_log_R_values)})
                 return v
@@ -102,7 +119,7 @@ class Shadow:
             def f(c1, c2, *a, **k):
                 before = orig.cache_info().hits
                 v = orig(c1, c2, *a, **k)
-                sh._count("_convolve_two_children", orig, before)
+                sh._count("_convolve_two_children", orig, before, "conv2", [sh._id("arr", np.ascontiguousarray(c1).tobytes()), sh._id("arr", np.ascontiguousarray(c2).tobytes())])
                 v2 = raw(np.array(c1, copy=True), np.array(c2, copy=True), *a, **k)
                 sh._cmp_arr("_convolve_two_children", v, v2, {})
                 return v
@@ -121,7 +138,9 @@ class Shadow:
             def f(data_point, kernel, parent_particle, outlier_proposal_prob, alpha):
                 before = orig.cache_info().hits
                 v = orig(data_point, kernel, parent_particle, outlier_proposal_prob, alpha)
-                sh._count(name, orig, before)
+                import pickle as _pk
+                pid_ = 0 if parent_particle is None else sh._id("parent", _pk.dumps((sorted(map(str, parent_particle._tree._tree["node_data"].keys())), absstate.to_json(absstate.quick_key(parent_particle.tree)), parent_particle._tree._tree["graph"])))
+                sh._count(name, orig, before, "prop", [pid_, sh._id("point", repr((name, id(kernel), data_point.name, outlier_proposal_prob)).encode())], alpha)
                 if parent_particle is not None:
                     parent_particle.built_tree = None   # restore the state the original consumes (deque pop)
                 v2 = raw(data_point, kernel, parent_particle, outlier_proposal_prob, alpha)
@@ -149,7 +168,9 @@ class Shadow:
             def f(parent_particle, data_point, children, tree_dist, perm_dist):
                 before = orig.cache_info().hits
                 v = orig(parent_particle, data_point, children, tree_dist, perm_dist)
-                sh._count("get_cached_new_tree", orig, before)
+                import pickle as _pk
+                pid_ = sh._id("parent", _pk.dumps((sorted(map(str, parent_particle._tree._tree["node_data"].keys())), absstate.to_json(absstate.quick_key(parent_particle.tree)), parent_particle._tree._tree["graph"])))
+                sh._count("get_cached_new_tree", orig, before, "newtree", [pid_, sh._id("point", repr(("nt", data_point.name, sorted(int(c) for c in children), id(perm_dist))).encode())], tree_dist.prior.alpha)
                 v2 = raw(parent_particle, data_point, children, tree_dist, perm_dist)
                 k1, k2 = absstate.quick_key(v.tree), absstate.quick_key(v2.tree)
                 rep = {"alpha_now": float(tree_dist.prior.alpha), "memoised": [absstate.key_str(k1), float(v.log_p), float(v.log_p_one), float(v.log_pdf)],
@@ -167,6 +188,18 @@ class Shadow:
             return f
 
         import phyclone.utils.dev as dev
+        import phyclone.run as prun
+        orig_clear = dev.clear_proposal_dist_caches
+
+        def clear_proposal_dist_caches():
+            orig_clear()
+            if len(sh.events) < 60000:
+                sh.events.append({"ev": "clear"})
+
+        for mod in (dev, prun):
+            if hasattr(mod, "clear_proposal_dist_caches"):
+                self.saved.append((mod, "clear_proposal_dist_caches", getattr(mod, "clear_proposal_dist_caches")))
+                setattr(mod, "clear_proposal_dist_caches", clear_proposal_dist_caches)
         w_logS = wrap_logS(tu.compute_log_S)
         w_conv = wrap_conv(tu._convolve_two_children)
         w_semi = wrap_prop(sa._get_cached_semi_proposal_dist, "_get_cached_semi_proposal_dist")
@@ -235,6 +268,47 @@ def adversarial_alpha(sh, seed, thorough):
                         pd.log_p(t)
 
 
+def validate_cache_trace(ck, sh, corrupt=None):
+    """The recorded cache event stream must be explainable by Cache.tla's key functions (TraceCache.tla)."""
+    import os
+    ev = [e for e in sh.events]
+    if not ev:
+        ck.note("no cache events recorded")
+        return
+    first_alpha = next((e["alpha"] for e in ev if e["ev"] == "alpha"), 1)
+    ev = [{"ev": "start", "alpha": first_alpha}] + ev
+    ev = ev[:20000]
+    if corrupt == "hit":
+        for e in ev:
+            if e["ev"] == "call" and e["fn"] == "logS" and not e["hit"]:
+                e["hit"] = True
+                break
+    d = env.scratch(os.path.join("tlc", "c14_trace"))
+    path = os.path.join(d, "events.json")
+    with open(path, "w") as fh:
+        json.dump(ev, fh)
+    c = cache_consts(False, True, False)
+    cfg = tlc.cfg_text(constants=c, init="TraceInit", next_="TraceNext", invariants=["HitEqualsRecompute", "Consumed"])
+    r = tlc.run_tlc("c14_trace", "TraceCache", cfg, workers=1, timeout=3000, environ={"TRACE_FILE": path},
+                    java_opts=["-Dtlc2.tool.queue.IStateQueue=StateDeque"])
+    if r.errors or r.timed_out:
+        raise tlc.TLCError("TraceCache failed: %s\n%s" % (r.summary(), r.out[-1500:]))
+    ck.add_tlc("TraceCache: %d recorded cache events (calls with hit/miss, clears, alpha changes)" % (len(ev) - 1), r)
+    done = any(ln.startswith('<<"MATCHED"') for ln in r.tuple_prints)
+    if "HitEqualsRecompute" in r.violated:
+        ck.violation("C14|trace|stale_hit", "a recorded cache hit returns a value the specification says is stale (HitEqualsRecompute violated on the recorded event stream)", {"tlc": r.out[-1200:]})
+    elif not done:
+        k = r.distinct  # number of states reached = events consumed + 1
+        bad = ev[min(len(ev) - 1, max(1, k))]
+        if corrupt == "hit" or bad.get("hit"):
+            ck.violation("C14|trace|unexplained_hit", "event %d of the recorded stream is a cache hit the key functions of Cache.tla cannot explain: %s" % (k, json.dumps(bad)), {"event_index": k, "event": bad})
+        else:
+            raise tlc.TLCError("trace rejected at a non-hit event %d: %s" % (k, json.dumps(bad)))
+    else:
+        ck.traces_validated += 1
+        ck.extra["cache_events_validated"] = len(ev) - 1
+
+
 def run(corrupt=None):
     ck = Check("C14")
     env.use_repo()
@@ -263,6 +337,7 @@ def run(corrupt=None):
         sh.uninstall()
     if corrupt == "inject":
         sh._viol("compute_log_S", "injected", {})
+    validate_cache_trace(ck, sh, corrupt)
     total = sum(sh.calls.values())
     ck.evaluations += total
     ck.extra["shadowed_calls"] = sh.calls
@@ -287,7 +362,10 @@ def selftest():
     ck = run(corrupt="inject")
     ok = any(v["signature"] == "C14|compute_log_S" for v in ck.violations)
     print("selftest:", "injected disagreement reported" if ok else "FAILED")
-    return 0 if ok else 1
+    ck = run(corrupt="hit")
+    ok2 = any(v["signature"].startswith("C14|trace|") for v in ck.violations)
+    print("selftest:", "a miss rewritten as a hit is rejected by TLC" if ok2 else "FAILED (corrupted event accepted)")
+    return 0 if (ok and ok2) else 1
 
 
 def replay(path):
